@@ -34,7 +34,10 @@ def spec_v1():
     sp += [E(b"a", "dir", 0o755), E(b"a/b", "dir", 0o755), E(b"a/b/c", "dir", 0o755), E(b"a/b/c/deep", "file", content=b"deep file\n"),
            E(b"sparse", "file", content=sparse), E(b"frag1", "file", content=b"fragment one " * 20), E(b"frag2", "file", content=b"fragment two " * 30),
            E(b"blocks", "file", content=content_pattern("blk", 2 * B + 300), xattrs={b"user.a": b"1", b"user.long": b"V" * 300}),
-           E(b"xb", "file", content=b"xb", xattrs={b"user.long": b"V" * 300, b"trusted.t": b"2"})]
+           E(b"xb", "file", content=b"xb", xattrs={b"user.long": b"V" * 300, b"trusted.t": b"2"}),
+           # tails of 3000 bytes: each needs a fragment block of its own (block size 4096)
+           E(b"ta", "file", content=content_pattern("ta", 2 * B + 3000)), E(b"tb", "file", content=content_pattern("tb", 3000)),
+           E(b"tc", "file", content=content_pattern("tc", B + 3000))]
     return sp
 
 
@@ -81,6 +84,14 @@ def derive_ops(img_bytes):
     ops.append("frag %d" % ffrag["ref"])
     ops.append("stream %d" % fmulti["ref"])
     ops.append("stream %d" % ffrag["ref"])
+    # a stream of a file with a tail end, interleaved with positional reads of the tail of a file that lives in ANOTHER fragment block
+    fr = [t[p] for p in files if t[p]["layout"]["frag"]]
+    for x in fr:
+        y = next((z for z in fr if z["layout"]["frag"][0] != x["layout"]["frag"][0]), None)
+        if y is not None and len(x["block_sizes"]) >= 1:
+            ops.append("streami %d %d %d" % (x["ref"], y["ref"], max(0, y["size"] - 20)))
+            ops.append("streami %d %d %d" % (y["ref"], x["ref"], max(0, x["size"] - 20)))
+            break
     if ffrag2 is not ffrag:
         ops.append("read %d 0 10" % ffrag2["ref"])
         ops.append("frag %d" % ffrag2["ref"])
